@@ -6,6 +6,7 @@ import asyncio
 from graphql import ExecutionResult
 from graphql.execution import experimental_execute_incrementally
 from graphql.execution import ExperimentalIncrementalExecutionResults
+from graphql.execution.incremental.incremental_executor import IncrementalExecutor
 from graphql.execution.incremental.stream_item_queue import StreamItemQueue
 from graphql.pyutils import is_awaitable
 
@@ -33,6 +34,7 @@ class Knobs:
 
 class RunResult:
     def __init__(self):
+        self.executor = None  # root executor (read-only probe access to shared sets)
         self.kind = None  # single | incremental | raised
         self.payloads = []
         self.monitor = None
@@ -77,11 +79,19 @@ def run_incremental(scn, sched_tape, stop_factory=None, step_cap=None, lenient=F
         kwargs = {}
         if stop is not None:
             kwargs = stop.exec_kwargs()
+        class Recording(IncrementalExecutor):
+            """The stock incremental executor; only remembers the root instance for probes."""
+
+            def __init__(self, *a, **k):
+                super().__init__(*a, **k)
+                if rr.executor is None:
+                    rr.executor = self
+
         try:
             rr.waiting = "execute"
             res = experimental_execute_incrementally(
                 scn.world.schema, rs.doc, rs.root, req, rs.variables, rs.opname,
-                enable_early_execution=knobs.early, **kwargs)
+                enable_early_execution=knobs.early, executor_class=Recording, **kwargs)
             if is_awaitable(res):
                 res = await res
         except Exception as e:  # noqa: BLE001
